@@ -5,12 +5,18 @@ package main
 
 import (
 	"fmt"
+	"os"
+	"path/filepath"
+
+	"github.com/shutter-network/rolling-shutter/rolling-shutter/app"
 
 	"github.com/shutter-network/rolling-shutter/rolling-shutter/shmsg"
 
 	"verifharness/appdrv"
 	"verifharness/vh"
 )
+
+var tmpDir string
 
 // replicate runs the history on two further replicas and compares every marshalled response
 // and the final state projection.
@@ -22,8 +28,30 @@ func replicate(run *vh.Run, h appdrv.History, reps int, key string) bool {
 			panic(err)
 		}
 		a2, _ := appdrv.NewApp(h.Genesis)
+		// the second replica is stopped and restarted from its state file after one commit
+		restartAt := -1
+		if tmpDir != "" {
+			var commits []int
+			for i, c := range h.Calls {
+				if c.Kind == "commit" {
+					commits = append(commits, i)
+				}
+			}
+			if len(commits) > 0 {
+				restartAt = commits[run.RNG.Intn(len(commits))]
+			}
+		}
 		for i, c := range h.Calls {
 			r1, r2 := appdrv.RawResp(a1, c), appdrv.RawResp(a2, c)
+			if i == restartAt {
+				a2.Gobpath = filepath.Join(tmpDir, "c09.gob")
+				if err := a2.PersistToDisk(); err == nil {
+					if sa, err := app.LoadShutterAppFromFile(a2.Gobpath); err == nil {
+						a2 = &sa
+						a2.Gobpath = ""
+					}
+				}
+			}
 			if r1 != r2 {
 				run.Violate(vh.Violation{Key: key, What: fmt.Sprintf("two replicas answer call %d (%s %s) differently", i, c.Kind, c.Note),
 					Case: h, Observed: []string{fmt.Sprintf("%q", r1), fmt.Sprintf("%q", r2)}})
@@ -96,6 +124,10 @@ func main() {
 	defer run.Finish()
 	run.Rule = "ABCI histories generated online against the real app (6-key universe, 2-5 genesis keypers, 3 candidate configs, all message types, malformed stream); each history runs once for the model comparison and on two further replica pairs compared bytewise; non-trivial = at least 3 events and 3 accepted transactions; distinct by call list"
 	u := appdrv.NewUniverse(8)
+	if d, err := os.MkdirTemp("", "verif-c09-"); err == nil {
+		tmpDir = d
+		defer os.RemoveAll(d)
+	}
 	if run.Replay != "" {
 		var h appdrv.History
 		if err := run.LoadReplay(&h); err != nil {
